@@ -9,7 +9,7 @@ RULE = ("polylines with open and closed subpaths (turning angles 0..180 incl. ex
         "miter limits around the switch point, widths incl. 0, negative and NaN: stroke_to_path's op list is compared bit for "
         "bit with the f32 model; and DrawTarget::stroke (white on transparent, identity / translated / uniformly scaled "
         "transforms, also magnifying by up to 65536 and reducing by 64 with the geometry scaled inversely; paths lying wholly outside the surface whose caps or miter tips reach in) is compared with the region of the statement computed in f64: pixels inside it by more than the margin "
-        "must be 255, pixels outside it by more than the margin 0 (a few 400x400 scenes stroke 120..200 px wide lines that turn by 0.5..8 degrees, where the join wedge is pixels wide); non-trivial = stroke with >= 2 segments")
+        "must be 255, pixels outside it by more than the margin 0; curved paths stroked under the identity and under scales up to 1000 are judged against the exact curve (within w/2 -+ 1 px) (a few 400x400 scenes stroke 120..200 px wide lines that turn by 0.5..8 degrees, where the join wedge is pixels wide); non-trivial = stroke with >= 2 segments")
 
 
 def make_lines(rng, n):
@@ -130,6 +130,78 @@ def pixel_check(ctx):
     ctx.cov["pixels_checked_against_region"] = checked
 
 
+def curved_check(ctx):
+    """Curved paths stroked under the identity and under strongly magnifying transforms (the geometry scaled inversely):
+    a pixel farther than w/2 + 1 px (+ half diagonal) from the exact curve must be untouched, a pixel closer than
+    w/2 - 1 px (- half diagonal) to it - and not beyond an open end - fully painted.  Round / bevel joins and butt /
+    round caps only, so that the region is within w/2 of the path."""
+    rng = ctx.rng
+    n = 40 if ctx.tier == "quick" else 600
+    W = H = 40
+    zero = " ".join(["00000000"] * (W * H))
+    scenes, meta = [], []
+    for i in range(n):
+        s = [1.0, 50.0, 200.0, 1000.0, 1.0 / 16][i % 5]
+        def P():
+            return (rng.randrange(16, 4 * W - 16) / 4.0, rng.randrange(16, 4 * H - 16) / 4.0)
+        cur = P()
+        dev = [("M",) + cur]
+        for _ in range(rng.randrange(1, 3)):
+            if rng.random() < 0.5:
+                c, e = P(), P(); dev.append(("Q",) + c + e)
+            else:
+                c1, c2, e = P(), P(), P(); dev.append(("C",) + c1 + c2 + e)
+        closed = rng.random() < 0.3
+        width = rng.choice([4.0, 6.0, 8.0])
+        cap, join = rng.choice(["butt", "round"]), rng.choice(["round", "bevel"])
+        toks = []
+        for o in dev:
+            v = " ".join(str(FB(z / s)) for z in o[1:])
+            toks.append("%s %s%s" % (o[0], v, " K 0" if o[0] == "C" else ""))
+        if closed:
+            toks.append("Z")
+        style = "STYLE %d %s %s %d 0 %d" % (FB(width / s), cap, join, FB(4.0), FB(0.0))
+        scenes.append("scene %d %d %d I %s ; xf %s ; stroke %s %s SRC solid ffffffff 3 %d 1" % (
+            i, W, H, zero, scene.xf_tokens((s, 0.0, 0.0, s, 0.0, 0.0)), scene.path_tokens(toks, 0), style, FB(1.0)))
+        meta.append((dev, closed, width, join))
+    impl, died = build.run_sharded(build.RQV, sc.augment(scenes))
+    checked = 0
+    for line, sc_line, (dev, closed, width, join) in zip(impl, scenes, meta):
+        parts = scene.split_results(line)[1]
+        if len(parts) < 2 or parts[1] in ("panic", "hang"):
+            continue
+        px = sc.OpRes(parts[1]).parse()["surface"]
+        pts = [dev[0][1:3]]
+        for o in dev[1:]:
+            ctrl = [(o[k], o[k + 1]) for k in range(1, len(o), 2)]
+            pts += geom.curve_points(o[0], [pts[-1]] + ctrl, 256)[1:]
+        if closed:
+            pts.append(pts[0])
+        cum = [0.0]
+        for j in range(len(pts) - 1):
+            cum.append(cum[-1] + math.hypot(pts[j + 1][0] - pts[j][0], pts[j + 1][1] - pts[j][1]))
+        for y in range(0, H):
+            for x in range(y % 2, W, 2):
+                u = (x + 0.5, y + 0.5)
+                best, bi = 1e30, 0
+                for j in range(len(pts) - 1):
+                    d = geom.seg_dist(u, pts[j], pts[j + 1])
+                    if d < best:
+                        best, bi = d, j
+                a = int(px[y * W + x], 16) >> 24
+                checked += 1
+                if best > width / 2 + 1.0 + 0.71 and a != 0:
+                    ctx.violation("cpx-%s" % sc_line.split()[1], sc_line, "pixel (%d,%d) is %.2f px from the curve, farther than half the width (%.1f) plus the margin, but has alpha %d" % (x, y, best, width / 2, a))
+                    return
+                # near an open end the cap's edge crosses the pixel: only judged 3 px of arc length away from both ends
+                at_end = not closed and (cum[bi + 1] < 3.0 or cum[-1] - cum[bi] < 3.0)
+                # with bevel joins the wedge beyond the bevel at a sharp turn is rightly left out: judged with round joins only
+                if join == "round" and best < width / 2 - 1.0 - 0.71 and not at_end and a != 255:
+                    ctx.violation("cpx-%s" % sc_line.split()[1], sc_line, "pixel (%d,%d) is %.2f px from the curve, inside half the width (%.1f) by more than the margin, but has alpha %d" % (x, y, best, width / 2, a))
+                    return
+    ctx.cov["pixels_checked_against_curved_region"] = checked
+
+
 ASSUME = ["f32 hypot = correctly rounded sqrt(x^2+y^2) in f64 (glibc); the f64 region oracle is a search aid, not a proof",
           "pixel oracle uses identity/translation/uniform scale transforms and the half-pixel margin of straight paths"]
 
@@ -137,6 +209,8 @@ ASSUME = ["f32 hypot = correctly rounded sqrt(x^2+y^2) in f64 (glibc); the f64 r
 def run(ctx):
     if core.prepare(ctx):
         pixel_check(ctx)
+        if not ctx.violations:
+            curved_check(ctx)
     return _path.run_property(ctx, make_lines, RULE, oracle, ASSUME, lambda a, i: a.count(" L ") >= 2, 4000, 80000,
                               "PathOps.stroke_to_path vs raqote::stroke_to_path")
 
